@@ -154,10 +154,10 @@ def finalize(rep, cases, results, tier, seed):
             rep.violation("exit-class-differs:%s:%s" % (kind, name),
                           "case %s: exit 0 with %s/w%d/%s but non-zero with %s/w%d/%s (%s)" % (
                               name, ok["driver"], ok["workers"], ok["sched"], ko["driver"], ko["workers"], ko["sched"], ko["stderr"]),
-                          {"case": [c for c in cases if c["group"] == gid][0], "detail": "group comparison"})
+                          {"cases": [c for c in cases if c["group"] == gid]})
         if runs[0]["expect_fail"] and True in classes:
             rep.violation("expected-failure-exit0:%s" % name, "case %s must fail (directory where a file goes) but a run exited 0" % name,
-                          {"case": [c for c in cases if c["group"] == gid][0]})
+                          {"cases": [c for c in cases if c["group"] == gid]})
         ok = [d for d in runs if d["exit0"]]
         if ok:
             ref = ok[0]
@@ -170,7 +170,7 @@ def finalize(rep, cases, results, tier, seed):
                                   "case %s: destinations differ at %r: %s/w%d/%s gives %s, %s/w%d/%s gives %s" % (
                                       name, p0, ref["driver"], ref["workers"], ref["sched"]["sched"], ref["snap"].get(p0),
                                       d["driver"], d["workers"], d["sched"]["sched"], d["snap"].get(p0)),
-                                  {"case": [c for c in cases if c["group"] == gid][0]})
+                                  {"cases": [c for c in cases if c["group"] == gid]})
                     break
         rep.count("groups-compared")
         rep.count("distinct-interleavings:%s" % name, len(sigs))
